@@ -9,6 +9,7 @@ import (
 	"io"
 	"os"
 	"regexp"
+	"runtime"
 	"runtime/debug"
 	"strings"
 	"syscall"
@@ -38,6 +39,9 @@ type History struct {
 	ExpectRejected bool `json:"expect_rejected,omitempty"`
 	// ExpectClean: Process of what was accepted returns no error (a rejected text leaves no trace)
 	ExpectClean bool `json:"expect_clean,omitempty"`
+	// resource limits of this history in the child (0 = the defaults, see limits)
+	CPUSeconds float64 `json:"cpu_s,omitempty"`
+	MemMiB     int     `json:"mem_mib,omitempty"`
 }
 
 func newHistory(stream, what string, names []string, texts []string) History {
@@ -111,6 +115,9 @@ type Report struct {
 	Panic    string   `json:"panic"`    // recovered panic (value and stack head): a crash
 	Phase    string   `json:"phase"`    // what was running when it panicked
 	Notes    []string `json:"notes,omitempty"`
+	Resource string   `json:"resource,omitempty"` // a resource limit was exceeded (the child stops): a violation
+	PeakMiB  int      `json:"peak_mib,omitempty"` // highest runtime.MemStats.Sys seen while the history ran
+	CPUms    int64    `json:"cpu_ms,omitempty"`   // processor time the history took
 	RawErrs  []string `json:"raw_errs,omitempty"` // replay only: the messages as goyang words them
 }
 
@@ -421,6 +428,86 @@ func crashSite(msg string) string {
 	return ""
 }
 
+// limits returns the resource limits of a history in the child: processor time (user + system of
+// the whole process, so independent of how busy the machine is) and memory obtained from the
+// system (runtime.MemStats.Sys: heap, stacks, runtime structures).  Defaults: 10 s + 1 ms per byte
+// of input and 1 GiB + 4 KiB per byte of input; the depth cases that are known to need more say so.
+func (h *History) limits() (cpu time.Duration, memBytes uint64) {
+	n := h.Bytes()
+	cpu = 10*time.Second + time.Duration(n)*time.Millisecond
+	if h.CPUSeconds > 0 {
+		cpu = time.Duration(h.CPUSeconds * float64(time.Second))
+	}
+	memBytes = 1<<30 + uint64(n)*4096
+	if h.MemMiB > 0 {
+		memBytes = uint64(h.MemMiB) << 20
+	}
+	return
+}
+
+func cpuTime() time.Duration {
+	var ru syscall.Rusage
+	if syscall.Getrusage(syscall.RUSAGE_SELF, &ru) != nil {
+		return 0
+	}
+	return time.Duration(ru.Utime.Nano() + ru.Stime.Nano())
+}
+
+// watchdog samples processor time and memory while a history runs.  When a limit is exceeded it
+// answers for the history itself (the worker goroutine cannot be stopped) and ends the child.
+type watchdog struct {
+	stop chan struct{}
+	done chan struct{}
+	peak uint64
+}
+
+func startWatchdog(h *History, wr *bufio.Writer) *watchdog {
+	w := &watchdog{stop: make(chan struct{}), done: make(chan struct{})}
+	cpuLimit, memLimit := h.limits()
+	cpu0 := cpuTime()
+	go func() {
+		defer close(w.done)
+		tick := time.NewTicker(25 * time.Millisecond)
+		defer tick.Stop()
+		var ms runtime.MemStats
+		for {
+			select {
+			case <-w.stop:
+				return
+			case <-tick.C:
+			}
+			runtime.ReadMemStats(&ms)
+			held := ms.Sys - ms.HeapReleased
+			if held > w.peak {
+				w.peak = held
+			}
+			used := cpuTime() - cpu0
+			why := ""
+			switch {
+			case held > memLimit:
+				why = fmt.Sprintf("memory: %d MiB held, limit %d MiB (input %d bytes)", held>>20, memLimit>>20, h.Bytes())
+			case used > cpuLimit:
+				why = fmt.Sprintf("processor time: %.1f s used, limit %.1f s (input %d bytes)", used.Seconds(), cpuLimit.Seconds(), h.Bytes())
+			}
+			if why != "" {
+				rep := Report{Resource: why, PeakMiB: int(w.peak >> 20), CPUms: used.Milliseconds()}
+				b, _ := json.Marshal(rep)
+				wr.WriteString(base64.StdEncoding.EncodeToString(b))
+				wr.WriteByte('\n')
+				wr.Flush()
+				os.Exit(0)
+			}
+		}
+	}()
+	return w
+}
+
+func (w *watchdog) end() uint64 {
+	close(w.stop)
+	<-w.done
+	return w.peak
+}
+
 // childMain serves histories until stdin closes: one base64 line in, one base64 line out.
 func childMain() {
 	// nothing may be picked up from disk: an absent import or include must stay absent
@@ -453,6 +540,7 @@ func childMain() {
 		}
 	}
 	rd := bufio.NewReaderSize(in, 1<<20)
+	var lastPeak uint64
 	wr := bufio.NewWriterSize(os.Stdout, 1<<20)
 	for {
 		line, err := rd.ReadString('\n')
@@ -464,7 +552,25 @@ func childMain() {
 				rep.Panic = "bad request"
 				rep.Phase = "protocol"
 			} else {
+				// start from a small heap, so that the peak is this history's
+				if lastPeak > 192<<20 {
+					debug.FreeOSMemory()
+				}
+				wd := startWatchdog(&h, wr)
+				c0 := cpuTime()
 				rep = runHistory(h)
+				peak := wd.end()
+				var ms runtime.MemStats
+				runtime.ReadMemStats(&ms)
+				if held := ms.Sys - ms.HeapReleased; held > peak {
+					peak = held
+				}
+				lastPeak = peak
+				rep.PeakMiB = int(peak >> 20)
+				rep.CPUms = (cpuTime() - c0).Milliseconds()
+				if _, memLimit := h.limits(); peak > memLimit && rep.Panic == "" {
+					rep.Resource = fmt.Sprintf("memory: %d MiB held, limit %d MiB (input %d bytes)", peak>>20, memLimit>>20, h.Bytes())
+				}
 			}
 			b, _ := json.Marshal(rep)
 			wr.WriteString(base64.StdEncoding.EncodeToString(b))
